@@ -8,6 +8,18 @@ If we do, like in MySQL lexer, the new rules like `DATASOURCE = r'\bDATASOURCE\b
 Then, for an input `DATASOURCE`, the last matched regexp is `STRING`, and the token is incorrectly classified 
 as a string.
 """
+class DecodedStr(str):
+    """Value of a token whose text the lexer decodes (strings, variables): keeps the source text in `raw`,
+    so that embedded raw queries and error messages can show what the user wrote."""
+    raw = None
+
+
+def decoded(value, raw):
+    value = DecodedStr(value)
+    value.raw = raw
+    return value
+
+
 class MindsDBLexer(Lexer):
     reflags = re.IGNORECASE
     ignore = ' \t\r'
@@ -321,12 +333,12 @@ class MindsDBLexer(Lexer):
 
     @_(r"'(?:\\.|[^'])*(?:''(?:\\.|[^'])*)*'")
     def QUOTE_STRING(self, t):
-        t.value = t.value.replace('\\"', '"').replace("\\'", "'").replace("''", "'")
+        t.value = decoded(t.value.replace('\\"', '"').replace("\\'", "'").replace("''", "'"), t.value)
         return t
 
     @_(r'"(?:\\.|[^"])*"')
     def DQUOTE_STRING(self, t):
-        t.value = t.value.replace('\\"', '"').replace("\\'", "'")
+        t.value = decoded(t.value.replace('\\"', '"').replace("\\'", "'"), t.value)
         return t
 
     @_(r'\n+')
@@ -339,6 +351,7 @@ class MindsDBLexer(Lexer):
        r'@"[a-zA-Z_.$][^"]*"'
        )
     def VARIABLE(self, t):
+        raw = t.value
         t.value = t.value.lstrip('@')
 
         if t.value[0] == '"':
@@ -347,6 +360,7 @@ class MindsDBLexer(Lexer):
             t.value = t.value.strip('\'')
         elif t.value[0] == "`":
             t.value = t.value.strip('`')
+        t.value = decoded(t.value, raw)
         return t
 
     @_(r'@@[a-zA-Z_.$]+',
@@ -355,6 +369,7 @@ class MindsDBLexer(Lexer):
        r'@@"[a-zA-Z_.$][^"]*"'
        )
     def SYSTEM_VARIABLE(self, t):
+        raw = t.value
         t.value = t.value.lstrip('@')
 
         if t.value[0] == '"':
@@ -363,6 +378,7 @@ class MindsDBLexer(Lexer):
             t.value = t.value.strip('\'')
         elif t.value[0] == "`":
             t.value = t.value.strip('`')
+        t.value = decoded(t.value, raw)
         return t
 
     def error(self, t):
